@@ -207,13 +207,55 @@ def deep_cases():
                 except RecursionError:
                     res.append('RecursionError')
             assert res == ['RecursionError'] * 7, res
-            # a treespec deeper than any tree can be (compose) must still be handled without recursion in the engine
+            # a treespec deeper than any tree can be (compose multiplies depths): every method returns or raises, none crashes
             s = optree.tree_structure(chain(kind, M))
             s2 = s.compose(s)
             r = s2.unflatten([1])
-            repr(s2), hash(s2), s2.paths(), s2 == s2, s2.children()
+            repr(s2), hash(s2), s2 == s2, s2.children()
+            for meth in (s2.paths, s2.accessors, lambda: s2.broadcast_to_common_suffix(s2)):
+                try:
+                    meth()
+                except RecursionError:
+                    pass
             return 'ok'
         yield f'depth MAX+1 raises RecursionError everywhere ({kind})', beyond, None
+
+
+def very_deep_cases():
+    """treespecs composed to tens of thousands of levels: each method in its own case so that a crash is attributed"""
+    M = optree.MAX_RECURSION_DEPTH
+
+    def big():
+        x = L(1)
+        for _ in range(M):
+            x = [x]
+        s = optree.tree_structure(x)
+        b = s
+        for _ in range(30):
+            b = b.compose(s)
+        return b, x
+    import pickle
+    ops = {
+        'paths': lambda b, x: b.paths(), 'accessors': lambda b, x: b.accessors(), 'broadcast_to_common_suffix': lambda b, x: b.broadcast_to_common_suffix(b),
+        'repr/hash/eq': lambda b, x: (repr(b), hash(b), b == b.compose(optree.treespec_leaf())), 'is_prefix': lambda b, x: (b.is_prefix(b), b <= b, b < b),
+        'transform': lambda b, x: b.transform(lambda s: s, lambda s: s), 'unflatten': lambda b, x: b.unflatten([1]),
+        'children/child/one_level/entries': lambda b, x: (b.children(), b.child(0), b.one_level(), b.entries()),
+        'pickle/copy': lambda b, x: pickle.loads(pickle.dumps(b)), 'traverse/walk': lambda b, x: (b.traverse([1], lambda n: n, lambda y: y), b.walk([1])),
+        'flatten_up_to': lambda b, x: b.flatten_up_to(x), 'compose': lambda b, x: b.compose(b).num_nodes,
+        'treespec_list([b])': lambda b, x: optree.treespec_list([b, b]).num_nodes, 'gc': lambda b, x: None,
+    }
+    for name, fn in ops.items():
+        def run(fn=fn):
+            b, x = big()
+            try:
+                fn(b, x)
+            except (RecursionError, ValueError):
+                pass
+            del b
+            import gc
+            gc.collect()
+            return 'ok'
+        yield f'31 000-level treespec: {name}', run, None
 
 
 def main():
@@ -227,7 +269,8 @@ def main():
                 fp.write(f'{i}\n'); fp.flush()
                 fo.write(json.dumps({'i': i, 'case': cases[i], 'got': run_mut(cases[i])}) + '\n'); fo.flush()
         return
-    gen = confusion_cases() if mode == 'args' else deep_cases()
+    import itertools
+    gen = confusion_cases() if mode == 'args' else itertools.chain(deep_cases(), very_deep_cases())
     outp, prog, start = sys.argv[2], sys.argv[3], int(sys.argv[4])
     with open(outp, 'a') as fo, open(prog, 'a') as fp:
         for i, (name, fn, w) in enumerate(gen):
